@@ -73,7 +73,9 @@ class PyFileWriter(AbstractWriter):
 
         try:
             fd, tfile = tempfile.mkstemp(dir=self._path)
-            os.write(fd, encode(data))
+            data = encode(data)
+            while data:
+                data = data[os.write(fd, data):]
             os.close(fd)
             os.rename(tfile, pyfile)
 
